@@ -62,7 +62,8 @@ class CliRules:
         chain = [self.loopfn]
         while self.main['id'] not in {g['id'] for g in callers_of(chain[-1])} and len(chain) < 6:
             cs = callers_of(chain[-1])
-            if len(cs) != 1:
+            # helpers split off the parser live in its file; a caller elsewhere (main's own helpers) is a user of the parser
+            if len(cs) != 1 or cs[0].get('file') != self.loopfn.get('file'):
                 break
             chain.append(cs[0])
         self.entry = chain[-1]
